@@ -17,6 +17,35 @@ def run(chk, replay=None):
             l, info = gen.command_line(rng, v, ns_tokens=True, db=db, coll=coll)
             if 'distinct' not in info['verbs']: break     # `distinct` is not among the verbs the tool declares
         cases.append((l, info))
+    # systematic: every namespace-bearing stage argument form in every nesting context, with planted names
+    n = 0
+    def tok():
+        nonlocal n
+        n += 1; return 'Nq%dqN' % (9000 + n)
+    import json as _json
+    for db, coll in names[:2]:
+        for ctx in ('top', 'lookup', 'unionWith', 'facet', 'facet_lookup', 'whenMatched', 'lookup_lookup'):
+            toks = []
+            def T():
+                t = tok(); toks.append(t); return t
+            forms = [{'$lookup': {'from': T(), 'localField': 'a', 'foreignField': 'b', 'as': 'j'}}, {'$graphLookup': {'from': T(), 'startWith': '$a', 'connectFromField': 'a', 'connectToField': 'b', 'as': 'g'}},
+                     {'$unionWith': {'coll': T(), 'pipeline': []}}, {'$unionWith': T()}, {'$lookup': {'from': {'db': T(), 'coll': T()}, 'pipeline': [], 'as': 'j'}}]
+            tail = [{'$merge': {'into': T()}}] if ctx in ('top',) else []
+            tail2 = [{'$merge': {'into': {'db': T(), 'coll': T()}}}] if ctx == 'top' else ([{'$out': T()}] if ctx == 'facet' else [])
+            inner = forms + tail + tail2
+            if ctx == 'top': pl = inner
+            elif ctx == 'lookup': pl = [{'$lookup': {'from': T(), 'let': {'v': '$a'}, 'pipeline': inner, 'as': 'o'}}]
+            elif ctx == 'unionWith': pl = [{'$unionWith': {'coll': T(), 'pipeline': inner}}]
+            elif ctx == 'facet': pl = [{'$facet': {'f1': inner, 'f2': [{'$match': {'a': 1}}]}}]
+            elif ctx == 'facet_lookup': pl = [{'$facet': {'f1': [{'$lookup': {'from': T(), 'pipeline': inner, 'as': 'o'}}]}}]
+            elif ctx == 'whenMatched': pl = [{'$merge': {'into': T(), 'whenMatched': [{'$set': {'x': 1}}] + forms[:1]}}]
+            else: pl = [{'$lookup': {'from': T(), 'pipeline': [{'$lookup': {'from': T(), 'pipeline': inner, 'as': 'p'}}], 'as': 'o'}}]
+            for place in ('command', 'originatingCommand'):
+                cmd = {'aggregate': coll, 'pipeline': pl, 'cursor': {}, '$db': db}
+                attr = {'type': 'command', 'ns': db + '.' + coll, place: cmd}
+                if place == 'originatingCommand': attr['command'] = {'getMore': gen.RawNum('7'), 'collection': coll, '$db': db}
+                l = gen.dumps({'t': {'$date': '2020-01-01T00:00:00.000+00:00'}, 's': 'I', 'c': 'COMMAND', 'id': gen.RawNum('51803'), 'ctx': 'conn1', 'msg': 'Slow query', 'attr': attr}).encode('utf-8')
+                cases.append((l, {'db': db, 'coll': coll, 'ns_names': list(toks), 'verbs': ['aggregate'], 'kind': 'ns_systematic', 'stats': {'nsctx_' + ctx: 1}, 'sensitive': [], 'sens_numbers': [], 'names': [], 'placement': place, 'ip': ''}))
     # other components with attr.ns, cmd-only lines
     for db, coll in names:
         cases.append((('{"t":{"$date":"2020-01-01T00:00:00.000+00:00"},"s":"I","c":"STORAGE","id":1,"ctx":"c","msg":"m","attr":{"ns":"%s.%s","x":1}}' % (db, coll)).encode(), {'db': db, 'coll': coll, 'ns_names': [], 'verbs': ['other'], 'kind': 'other', 'stats': {}}))
@@ -89,7 +118,7 @@ def compare(chk, cases, on, off, ron, roff, hashes):
         tin = jtree.parse(l)
         for (ip, kp, kind, val), (_, _, _, nv) in zip(jtree.leaves(tin), jtree.leaves(ton)):
             if kind == 'str' and val in info['ns_names'] and nv != P(val):
-                nested = 'pipeline' in kp[3:] and any(k in ('$lookup', '$unionWith', '$facet', '$merge') for k in kp)
+                nested = ('pipeline' in kp[3:] or 'whenMatched' in kp[3:]) and any(k in ('$lookup', '$unionWith', '$facet', '$merge') for k in kp)      # F16a names $merge.whenMatched among the nested pipelines
                 strform = kp[-1] in ('$out', '$unionWith', '$merge')
                 chk.violate('stage namespace replaced by something else than its pseudonym', dict(case, path=list(kp), name=val, got=str(nv)[:60]),
                             tags=['consistent', 'stage'] + (['nested_pipeline'] if nested and not strform else []) + (['string_form'] if strform else []))
